@@ -2,7 +2,7 @@
 //! C03 (no dangling references / touch after free), C15 (happens-before).
 use super::concchecks::{base_judge, budget_for, history_of, ConcCheck, JudgeErr, NO_PROBE};
 use crate::conc::*;
-use crate::lin::{HEnt, HOp};
+use crate::lin::HOp;
 use crate::model::*;
 use crate::runner::*;
 use crate::sched::{Ev, Pool, ProbeCtx, ProbeFn, ProbeSel};
@@ -55,7 +55,7 @@ pub fn lifetimes(out: &ConcOut) -> BTreeMap<u32, Vec<Life>> {
             Some(l) => l,
             None => continue,
         };
-        let mut kill = |vid: Option<u64>, certain: bool, lives: &mut Vec<Life>| {
+        let kill = |vid: Option<u64>, certain: bool, lives: &mut Vec<Life>| {
             for l in lives.iter_mut() {
                 if vid.map_or(true, |v| v == l.vid) {
                     l.die_inv = l.die_inv.min(e.inv);
@@ -682,7 +682,7 @@ pub fn run_iter_case(c: &IterCase) -> Result<IterStats, String> {
     let mut lives: BTreeMap<u32, Vec<(u64, u64, u64)>> = BTreeMap::new();
     let mut cur: BTreeMap<u32, u64> = BTreeMap::new();
     let g = map.guard();
-    let mut ins = |map: &FMap, tag: u32, time: &mut u64, lives: &mut BTreeMap<u32, Vec<(u64, u64, u64)>>, cur: &mut BTreeMap<u32, u64>| {
+    let ins = |map: &FMap, tag: u32, time: &mut u64, lives: &mut BTreeMap<u32, Vec<(u64, u64, u64)>>, cur: &mut BTreeMap<u32, u64>| {
         *time += 1;
         let v = V::new(tag as u64);
         let id = v.id;
@@ -696,7 +696,7 @@ pub fn run_iter_case(c: &IterCase) -> Result<IterStats, String> {
         }
         lives.entry(tag).or_default().push((id, *time, u64::MAX));
     };
-    let mut rem = |map: &FMap, tag: u32, time: &mut u64, lives: &mut BTreeMap<u32, Vec<(u64, u64, u64)>>, cur: &mut BTreeMap<u32, u64>| {
+    let rem = |map: &FMap, tag: u32, time: &mut u64, lives: &mut BTreeMap<u32, Vec<(u64, u64, u64)>>, cur: &mut BTreeMap<u32, u64>| {
         *time += 1;
         map.remove(&K::probe(tag), &g);
         if let Some(old) = cur.remove(&tag) {
